@@ -151,6 +151,12 @@ def cases(tier, seed, shard, nshards):
     for i, f in enumerate(FAMILIES):
         if i % nshards == shard:
             yield {"k": "growth", "name": f}
+    j = 0
+    for shape in ("@a{k, %s}", "@a{k, t = {x}, %s}", "@article{k,\n  title = {x},\n  %s\n}", '@a{k, t = "x" , %s }\n@b{j}', "@a{k, t = 1, u = 2, %s}"):
+        for junk in ("junk", "junk Jane Doe", "% a remark", "t", "title {x}", "é", "x y z"):
+            j += 1
+            if j % nshards == shard:
+                yield {"k": "junk", "text": shape % junk, "junk": junk}
     for seq in tokens.sequences(ALPHA, _L(tier), shard, nshards):
         yield {"k": "tok", "text": "".join(seq)}
     from ..gen import dictionary
@@ -341,6 +347,14 @@ def check(case, ctx):
     ctx.notes["max_scanner_reentrancy"] = max(ctx.notes.get("max_scanner_reentrancy", 0), depth)
     if fam:
         ctx.notes[f"steps_per_char_x100:{case['name']}"] = max(ctx.notes.get(f"steps_per_char_x100:{case['name']}", 0), int(100 * steps / max(1, len(text))))
+    if case["k"] == "junk":
+        # 'syntax errors surface only as failed blocks': text in front of the closing brace that is no field (no '=') is a
+        # syntax error; it must not be accepted silently and dropped
+        ctx.mon("syntax_error_surfaces")
+        kept = any(case["junk"] in (f.key + " " + str(f.value)) for b in lib.entries for f in b.fields)
+        if not lib.failed_blocks and not kept:
+            out.append(Violation("silently-accepted", "C01:syntax-error-silently-dropped:text-without-equals-before-closing-brace",
+                                 dict(text=text, blocks=[sp.block_kind(b) for b in lib.blocks], written=w1 if isinstance(w1, str) else None)))
     if nfail or lines >= 1000 or (fam and case["name"].startswith("nest") and case["n"] >= 100):
         ctx.nontriv(case if fam else text)
         if fam or ctx.cases % 1999 == 0:
